@@ -336,11 +336,23 @@ impl RuntimeData {
         debug!("• GC");
         // mark all roots for collection
         let mut progress_tracker = Vec::with_capacity(self.value_stack.len());
+        // objects guarded by an ObjectGcGuard are roots as well: they must survive together with
+        // everything they refer to, and they stay guarded after the collection
+        for object in self.object_list.iter_mut() {
+            unsafe {
+                let t = object.as_mut();
+                if matches!(t.marker, GcMarker::Protected) {
+                    progress_tracker.push(t);
+                }
+            }
+        }
         for val in self.value_stack.iter() {
             if let Value::Object(mut t) = val {
                 unsafe {
                     let t = t.as_mut();
-                    t.marker = GcMarker::Gray;
+                    if !matches!(t.marker, GcMarker::Protected) {
+                        t.marker = GcMarker::Gray;
+                    }
                     progress_tracker.push(t);
                 }
             }
@@ -350,7 +362,9 @@ impl RuntimeData {
             if let Value::Object(mut t) = val {
                 unsafe {
                     let t = t.as_mut();
-                    t.marker = GcMarker::Gray;
+                    if !matches!(t.marker, GcMarker::Protected) {
+                        t.marker = GcMarker::Gray;
+                    }
                     progress_tracker.push(t);
                 }
             }
@@ -360,7 +374,9 @@ impl RuntimeData {
         for frame in self.call_stack.iter() {
             unsafe {
                 if let Some(t) = frame.callee.as_mut() {
-                    t.marker = GcMarker::Gray;
+                    if !matches!(t.marker, GcMarker::Protected) {
+                        t.marker = GcMarker::Gray;
+                    }
                     progress_tracker.push(t);
                 }
             }
@@ -369,7 +385,9 @@ impl RuntimeData {
             let mut upvalue = self.open_upvalues;
             while let Some(t) = upvalue.as_mut() {
                 upvalue = t.as_upvalue().map(|u| u.next).unwrap_or(std::ptr::null_mut());
-                t.marker = GcMarker::Gray;
+                if !matches!(t.marker, GcMarker::Protected) {
+                    t.marker = GcMarker::Gray;
+                }
                 progress_tracker.push(t);
             }
         }
